@@ -114,6 +114,7 @@ class Interp:
                 cls = type(st["cls"], (Exception,), {})
                 raise cls(st["msg"])
             if op == "log":
+                self.trace.append(["logcall", ctxpos, st["msg"]])
                 ctx.logger.info(st["msg"])
                 continue
             if op == "pad":
